@@ -1171,7 +1171,7 @@ func retryLoopBinding(v *Verifier, fn *ssa.Function, con *Contract, prop string,
 	}
 	sort.Ints(specOrds)
 	if nCode < len(specOrds) {
-		return nil
+		return retryHelperLoops(v, fn, con, prop, workdir, tier, specOrds, nCode)
 	}
 	timeout := 10
 	if tier == "thorough" {
@@ -1238,6 +1238,129 @@ func retryLoopBinding(v *Verifier, fn *ssa.Function, con *Contract, prop string,
 		}
 		if allOK(fv2) {
 			fmt.Fprintf(os.Stderr, "note: %s: the loops of the function were renumbered by an edit; its `loop n` blocks hold for the code loops %v\n", shortFuncName(fn), combo)
+			return fv2
+		}
+	}
+	return nil
+}
+
+// retryHelperLoops: the function has fewer loops than its contract has `loop n` blocks - a loop may have been extracted
+// into a new helper ("extract method"). The contract-less module functions it calls directly are searched for loops;
+// the contract's blocks are assigned, in order, to the function's own loops and to those helper loops, and the first
+// assignment under which everything discharges is used. The blocks are evaluated in the helper's frame with the
+// function's entry state as `old` and its variables as a fall-back for names.
+func retryHelperLoops(v *Verifier, fn *ssa.Function, con *Contract, prop string, workdir string, tier string, specOrds []int, nCode int) *FuncVC {
+	type hl struct {
+		key string
+		ord int
+	}
+	var helpers []hl
+	seen := map[*ssa.Function]bool{}
+	var collect func(f *ssa.Function, depth int)
+	collect = func(f *ssa.Function, depth int) {
+		for _, b := range f.Blocks {
+			for _, in := range b.Instrs {
+				ci, ok := in.(ssa.CallInstruction)
+				if !ok {
+					continue
+				}
+				c := ci.Common().StaticCallee()
+				if c == nil || seen[c] || v.contracts[c] != nil || len(c.Blocks) == 0 || pkgOf(c) == nil || !isModulePkg(pkgOf(c)) {
+					continue
+				}
+				seen[c] = true
+				n := len(computeLoops(c))
+				for i := 1; i <= n; i++ {
+					helpers = append(helpers, hl{funcKey(c), i})
+				}
+				if depth < 1 {
+					collect(c, depth+1)
+				}
+			}
+		}
+	}
+	collect(fn, 0)
+	if len(helpers) == 0 || len(helpers) > 4 {
+		return nil
+	}
+	timeout := 10
+	if tier == "thorough" {
+		timeout = 60
+	}
+	// positions: own loops 1..nCode, then helper loops; choose an order-preserving injection of the spec loops
+	total := nCode + len(helpers)
+	var combos [][]int
+	var rec func(start int, cur []int)
+	rec = func(start int, cur []int) {
+		if len(cur) == len(specOrds) {
+			combos = append(combos, append([]int(nil), cur...))
+			return
+		}
+		for c := start; c <= total; c++ {
+			rec(c+1, append(cur, c))
+		}
+	}
+	rec(1, nil)
+	if len(combos) > 24 {
+		return nil
+	}
+	for _, combo := range combos {
+		remap := map[int]int{}
+		hmap := map[string]int{}
+		for i, c := range combo {
+			if c <= nCode {
+				remap[c] = specOrds[i]
+			} else {
+				h := helpers[c-nCode-1]
+				hmap[fmt.Sprintf("%s#%d", h.key, h.ord)] = specOrds[i]
+			}
+		}
+		if len(hmap) == 0 {
+			continue
+		}
+		var fv2 *FuncVC
+		func() {
+			defer func() {
+				if r := recover(); r != nil {
+					if os.Getenv("GOCV_DEBUG_RETRY") != "" {
+						fmt.Fprintf(os.Stderr, "[retry] %v: %v\n", hmap, r)
+					}
+					fv2 = nil
+				}
+			}()
+			fv2 = NewFuncVC(v, fn, con, prop)
+			fv2.loopRemap = remap
+			if len(remap) == 0 {
+				fv2.loopRemap = map[int]int{-1: -1}
+			}
+			fv2.helperLoops = hmap
+			fv2.VerifyTop()
+		}()
+		if fv2 == nil || len(fv2.obls) == 0 {
+			continue
+		}
+		DischargeAll(fv2.obls, workdir, timeout, runtime.NumCPU(), 0, false)
+		ok := true
+		for _, o := range fv2.obls {
+			if o.Cover {
+				if o.Result == "unsat" {
+					ok = false
+				}
+				continue
+			}
+			if o.Result != "unsat" {
+				ok = false
+			}
+		}
+		if os.Getenv("GOCV_DEBUG_RETRY") != "" {
+			for _, o := range fv2.obls {
+				if !o.Cover && o.Result != "unsat" {
+					fmt.Fprintf(os.Stderr, "[retry] %v: %s %s %s\n", hmap, o.Name, o.Result, truncate(o.Model, 300))
+				}
+			}
+		}
+		if ok {
+			fmt.Fprintf(os.Stderr, "note: %s: a loop of the function was moved into a helper by an edit; its `loop n` blocks hold with the assignment %v (own loops 1..%d, then helper loops %v)\n", shortFuncName(fn), combo, nCode, helpers)
 			return fv2
 		}
 	}
@@ -1314,29 +1437,64 @@ func verifyWithAliases(v *Verifier, fn *ssa.Function, con *Contract, prop string
 		timeout = 60
 	}
 	var tried []string
-	for _, c := range cands {
-		fv2, _, err2 := try(map[string]string{missing: c})
-		if err2 != nil || len(fv2.obls) == 0 {
-			continue
-		}
-		tried = append(tried, c)
-		DischargeAll(fv2.obls, workdir, timeout, runtime.NumCPU(), 0, false)
-		ok := true
-		for _, o := range fv2.obls {
-			if o.Cover {
-				if o.Result == "unsat" {
-					ok = false
+	// several locals may have been renamed at once: depth-first over the names that turn up missing (at most three), every
+	// other local tried in each role; only complete assignments are discharged (at most 16 of them)
+	discharges := 0
+	var search func(aliases map[string]string, miss string, depth int) *FuncVC
+	search = func(aliases map[string]string, miss string, depth int) *FuncVC {
+		for _, c := range cands {
+			used := false
+			for _, a := range aliases {
+				if a == c {
+					used = true
+				}
+			}
+			if used {
+				continue
+			}
+			next := map[string]string{}
+			for k, a := range aliases {
+				next[k] = a
+			}
+			next[miss] = c
+			fv2, miss2, err2 := try(next)
+			if err2 != nil {
+				if miss2 != "" && miss2 != miss && depth < 3 {
+					if _, seenName := next[miss2]; !seenName {
+						if r := search(next, miss2, depth+1); r != nil {
+							return r
+						}
+					}
 				}
 				continue
 			}
-			if o.Result != "unsat" {
-				ok = false
+			if len(fv2.obls) == 0 || discharges >= 16 {
+				continue
+			}
+			discharges++
+			tried = append(tried, fmt.Sprint(next))
+			DischargeAll(fv2.obls, workdir, timeout, runtime.NumCPU(), 0, false)
+			ok := true
+			for _, o := range fv2.obls {
+				if o.Cover {
+					if o.Result == "unsat" {
+						ok = false
+					}
+					continue
+				}
+				if o.Result != "unsat" {
+					ok = false
+				}
+			}
+			if ok {
+				fmt.Fprintf(os.Stderr, "note: %s: locals named by the contract no longer exist; its clauses hold with the renaming %v\n", shortFuncName(fn), next)
+				return fv2
 			}
 		}
-		if ok {
-			fmt.Fprintf(os.Stderr, "note: %s: local %q no longer exists; its contract clauses hold with local %q in its role\n", shortFuncName(fn), missing, c)
-			return fv2
-		}
+		return nil
+	}
+	if r := search(map[string]string{}, missing, 1); r != nil {
+		return r
 	}
 	fv = NewFuncVC(v, fn, con, prop)
 	o := &Obligation{Name: fmt.Sprintf("%s/%s/inv[local %s]", prop, fv.funcName(), missing), Kind: "inv.init", Func: fv.funcName(), Pos: v.prog.Fset.Position(fn.Pos()).String(),
